@@ -132,6 +132,13 @@ impl Prop for C18 {
       let first: Vec<usize> = (0..2 + rng.below(4)).map(|_| 1 + rng.below(nr as u64) as usize).collect();
       let second: Vec<usize> = (0..2 + rng.below(first.len() as u64)).map(|_| 1 + rng.below(first.len() as u64) as usize).collect();
       out.push(Case { id: format!("select;form=chain-vv;n={}", i), cell: "select;form=chain-vv".into(), input: json!({"mode": "select", "a": a, "form": "chain-vv", "idx": first, "idx2": second}) });
+      // ... index vector, then a logical mask over the temporary's rows; logical mask, then a logical mask over the kept rows
+      // (masks have at least two entries: the literal [true] is a scalar, not a mask)
+      { let m2: Vec<bool> = (0..first.len()).map(|j| j == first.len() - 1 || (i + j) % 2 == 0).collect();
+        out.push(Case { id: format!("select;form=chain-vm;n={}", i), cell: "select;form=chain-vm".into(), input: json!({"mode": "select", "a": a, "form": "chain-vm", "idx": first, "mask2": m2}) }); }
+      { let keptn = mask.iter().filter(|b| **b).count();
+        if nr >= 2 && keptn >= 2 { let m2: Vec<bool> = (0..keptn).map(|j| j == 0 || (i + j) % 3 == 0).collect();
+          out.push(Case { id: format!("select;form=chain-mm;n={}", i), cell: "select;form=chain-mm".into(), input: json!({"mode": "select", "a": a, "form": "chain-mm", "mask": mask, "mask2": m2}) }); } }
       let kept = mask.iter().filter(|b| **b).count();
       let second_m: Vec<usize> = (0..2 + rng.below(3)).map(|_| 1 + rng.below(kept.max(1) as u64) as usize).collect();
       if nr >= 2 && kept >= 1 { out.push(Case { id: format!("select;form=chain-mv;n={}", i), cell: "select;form=chain-mv".into(), input: json!({"mode": "select", "a": a, "form": "chain-mv", "mask": mask, "idx2": second_m}) }); }
@@ -214,6 +221,11 @@ impl Prop for C18 {
           "chain-vv" => { let idx: Vec<usize> = serde_json::from_value(case.input["idx"].clone()).unwrap(); let idx2: Vec<usize> = serde_json::from_value(case.input["idx2"].clone()).unwrap();
             let f = |v: &Vec<usize>| v.iter().map(|i| i.to_string()).collect::<Vec<_>>().join(" ");
             (format!("A[[{}]][[{}]]", f(&idx), f(&idx2)), idx2.iter().map(|j| rows[idx[j - 1] - 1].clone()).collect()) }
+          "chain-vm" => { let idx: Vec<usize> = serde_json::from_value(case.input["idx"].clone()).unwrap(); let m2: Vec<bool> = serde_json::from_value(case.input["mask2"].clone()).unwrap();
+            (format!("A[[{}]][[{}]]", idx.iter().map(|i| i.to_string()).collect::<Vec<_>>().join(" "), m2.iter().map(|b| b.to_string()).collect::<Vec<_>>().join(" ")), idx.iter().zip(m2.iter()).filter(|(_, b)| **b).map(|(i, _)| rows[i - 1].clone()).collect()) }
+          "chain-mm" => { let m: Vec<bool> = serde_json::from_value(case.input["mask"].clone()).unwrap(); let m2: Vec<bool> = serde_json::from_value(case.input["mask2"].clone()).unwrap();
+            let kept: Vec<Row> = rows.iter().zip(m.iter()).filter(|(_, b)| **b).map(|(r, _)| r.clone()).collect();
+            (format!("A[[{}]][[{}]]", m.iter().map(|b| b.to_string()).collect::<Vec<_>>().join(" "), m2.iter().map(|b| b.to_string()).collect::<Vec<_>>().join(" ")), kept.iter().zip(m2.iter()).filter(|(_, b)| **b).map(|(r, _)| r.clone()).collect()) }
           "chain-mv" => { let m: Vec<bool> = serde_json::from_value(case.input["mask"].clone()).unwrap(); let idx2: Vec<usize> = serde_json::from_value(case.input["idx2"].clone()).unwrap();
             let kept: Vec<Row> = rows.iter().zip(m.iter()).filter(|(_, b)| **b).map(|(r, _)| r.clone()).collect();
             (format!("A[[{}]][[{}]]", m.iter().map(|b| b.to_string()).collect::<Vec<_>>().join(" "), idx2.iter().map(|i| i.to_string()).collect::<Vec<_>>().join(" ")), idx2.iter().map(|j| kept[j - 1].clone()).collect()) }
